@@ -33,7 +33,7 @@ fn probe_standin_numbers(s: &str, b: &[u8], v: u64) {
     proof { assert(false); } // @ob PROBE probe.standin.numbers
 }
 fn probe_standin_timeout(x: u32) {
-    let d = Duration::from_secs(3); let r = timeout(d, x); let m = cmp::min(1, 2);
+    let d = Duration::from_secs(3); let r = timeout(d, x); let m = Ord::min(1usize, 2usize);
     proof { assert(false); } // @ob PROBE probe.standin.timeout_min
 }
 proof fn probe_axioms(s: store::MemcStore) {
